@@ -505,3 +505,35 @@ pub fn decode_rdata_with_type(b: &[u8]) -> Option<RecordTypeWithData> {
         .and_then(|m| m.answers.into_iter().next())
         .map(|r| r.rtype_with_data)
 }
+
+/// Records that are completely contained in `bytes` (header, questions, then
+/// as many whole records as parse), ignoring the header counts' promise of
+/// more.  Used to decide what a (possibly mangled) reply "supplied".
+pub fn decode_prefix_records(bytes: &[u8]) -> Vec<ResourceRecord> {
+    let mut out = Vec::new();
+    if bytes.len() < 12 {
+        return out;
+    }
+    let mut r = Rd {
+        b: bytes,
+        pos: 4,
+        steps: 0,
+    };
+    let qd = match r.u16() {
+        Ok(v) => v,
+        Err(_) => return out,
+    };
+    let total: u32 = (0..3).map(|_| u32::from(r.u16().unwrap_or(0))).sum();
+    for _ in 0..qd {
+        if r.name().is_err() || r.u16().is_err() || r.u16().is_err() {
+            return out;
+        }
+    }
+    for _ in 0..total {
+        match rr(&mut r) {
+            Ok(x) => out.push(x),
+            Err(_) => break,
+        }
+    }
+    out
+}
